@@ -32,9 +32,10 @@ static void hist_free(hist_t *h) {
 }
 
 /* needs[k] = 1 when step k factors (needs its own values) */
-/* grow = 1: "arrow" pattern with a dense first row and column whose row 0 is tiny until a rowscale step
- * makes it dominant: the remembered (sparse-row) pivots are then abandoned for the dense row and the
- * refactorization fills in completely, so the re-adopted L/U storage has to grow during reuse. */
+/* grow = 1: "arrow" pattern with a dense first row and column (natural column order).  Row 0 is tiny and
+ * entry (n-1,0) dominates column 0 until a rowscale step makes row 0 dominant: the first pivot then moves
+ * from the sparse last row (almost no fill) to the dense row 0 (complete fill), the remembered pivots are
+ * abandoned and the re-adopted L/U storage has to grow while it is being reused. */
 static void hist_gen_generic(rng_t *r, int n, int nsteps, const int *needs, int cplx, int grow, int emax, hist_t *h) {
     gmat_t g; memset(&g, 0, sizeof g);
     if (!grow) gmat_gen(r, n, n, PAT_ANY, VAL_GENERIC, 1, cplx, &g);
@@ -45,7 +46,7 @@ static void hist_gen_generic(rng_t *r, int n, int nsteps, const int *needs, int 
         for (size_t q = 0; q < (size_t)n * n; q++) nz += mk[q];
         g.m = g.n = n; g.nnz = nz; g.pat = "arrow0"; g.val = "generic";
         g.colptr = HMALLOC(sizeof(int_t) * (n + 1)); g.rowind = HMALLOC(sizeof(int_t) * (nz + 1)); g.re = HMALLOC(sizeof(double) * (nz + 1)); g.im = HMALLOC(sizeof(double) * (nz + 1));
-        long q = 0; for (int j = 0; j < n; j++) { g.colptr[j] = q; for (int i = 0; i < n; i++) if (mk[i + j * n]) { g.rowind[q] = i; g.re[q] = ldexp(gen_value(r, VAL_GENERIC), i == 0 ? -12 : 0); g.im[q] = cplx ? ldexp(gen_value(r, VAL_GENERIC), i == 0 ? -12 : 0) : 0.0; q++; } }
+        long q = 0; for (int j = 0; j < n; j++) { g.colptr[j] = q; for (int i = 0; i < n; i++) if (mk[i + j * n]) { g.rowind[q] = i; int sh = i == 0 ? -12 : (i == n - 1 && j == 0) ? 6 : 0; g.re[q] = ldexp(gen_value(r, VAL_GENERIC), sh); g.im[q] = cplx ? ldexp(gen_value(r, VAL_GENERIC), sh) : 0.0; q++; } }
         g.colptr[n] = q; free(mk);
     }
     h->n = n; h->nsteps = nsteps; h->dyadic = 0; h->nnz = g.nnz;
@@ -59,19 +60,20 @@ static void hist_gen_generic(rng_t *r, int n, int nsteps, const int *needs, int 
         if (!needs[k]) { h->kind[k] = -1; h->re[k] = h->re[k - 1]; h->im[k] = h->im[k - 1]; continue; }
         h->re[k] = malloc(sizeof(double) * (g.nnz + 1)); h->im[k] = malloc(sizeof(double) * (g.nnz + 1));
         int kind = k == 0 ? HK_UNRELATED : hist_pick_kind(r);
+        if (grow && k > 0) { double x = rng_unit(r); kind = x < 0.5 ? HK_ROWSCALE : x < 0.85 ? HK_UNRELATED : HK_PERTURB; }
         h->kind[k] = kind;
         if (k == 0) { memcpy(h->re[0], g.re, sizeof(double) * g.nnz); memcpy(h->im[0], g.im, sizeof(double) * g.nnz); }
         else if (kind == HK_SAME) { memcpy(h->re[k], h->re[k - 1], sizeof(double) * g.nnz); memcpy(h->im[k], h->im[k - 1], sizeof(double) * g.nnz); }
         else if (kind == HK_PERTURB) {
             for (long q = 0; q < g.nnz; q++) { h->re[k][q] = h->re[k - 1][q] * (1.0 + 1e-3 * (2 * rng_unit(r) - 1)); h->im[k][q] = h->im[k - 1][q] * (1.0 + 1e-3 * (2 * rng_unit(r) - 1)); }
         } else if (kind == HK_UNRELATED) {
-            for (long q = 0; q < g.nnz; q++) { int sh = (grow && h->rowind[q] == 0) ? -12 : 0; h->re[k][q] = ldexp(gen_value(r, VAL_GENERIC), sh); h->im[k][q] = cplx ? ldexp(gen_value(r, VAL_GENERIC), sh) : 0.0; }
+            for (long q = 0; q < g.nnz; q++) { int sh = !grow ? 0 : h->rowind[q] == 0 ? -12 : (h->rowind[q] == n - 1 && q < h->colptr[1]) ? 6 : 0; h->re[k][q] = ldexp(gen_value(r, VAL_GENERIC), sh); h->im[k][q] = cplx ? ldexp(gen_value(r, VAL_GENERIC), sh) : 0.0; }
             for (int i = 0; i < n; i++) cum[i] = 0; if (grow) cum[0] = -12;
         } else {
             int *e = calloc(n + 1, sizeof(int)); int any = 0;
             for (int i = 0; i < n; i++) if (rng_chance(r, 0.4)) { e[i] = rng_chance(r, 0.5) ? 20 : -20; any = 1; }
             if (!any) e[rng_int(r, 0, n - 1)] = rng_chance(r, 0.5) ? 20 : -20;
-            if (grow && rng_chance(r, 0.8)) e[0] = 32;
+            if (grow && rng_chance(r, 0.8)) { e[0] = 32; for (int i = 1; i < n; i++) if (e[i] > 0) e[i] = -e[i]; }   /* row 0 becomes the dominant row */
             for (int i = 0; i < n; i++) { int t = cum[i] + e[i]; if (t > emax) t = emax; if (t < -emax) t = -emax; e[i] = t - cum[i]; cum[i] = t; }
             for (long q = 0; q < g.nnz; q++) { h->re[k][q] = ldexp(h->re[k - 1][q], e[h->rowind[q]]); h->im[k][q] = ldexp(h->im[k - 1][q], e[h->rowind[q]]); }
             free(e);
